@@ -25,6 +25,10 @@
  *   I <thread> <event> <args>        an operation performed inline (not a scheduling point)
  *   C <choice tokens>                the schedule actually taken (replayable: strategy list)
  *   M status=... peak=... ...        monitors, computed here, independent of any model
+ *   K <kind>:<hex offset> ...        the distinct CALL SITES (return address minus __executable_start) from which
+ *                                    pthread_cond_wait / _signal / _broadcast and pthread_create were called in
+ *                                    this run; vlib/sched.py compares them with the call sites that exist in the
+ *                                    object code of dsh.c (a site no run ever reaches is reported)
  */
 #define _GNU_SOURCE
 #include <errno.h>
@@ -41,6 +45,7 @@
 #include <string.h>
 #include <time.h>
 #include <unistd.h>
+#include <sys/resource.h>
 
 #include "config.h"
 #include "src/common/hostlist.h"
@@ -126,6 +131,8 @@ static int inflight, peak, peak_step = -1, early_return, nfwd;
 static long inline_run, spin_limit = 200000;
 #define NEVER (1L << 60)        /* script time "never": `out -1 EOF` = the stream hangs from there on */
 static int reltime;             /* script times relative to the host's own connectBegin / connectEnd */
+static int createfail = -1;     /* `createfail i`: the FIRST pthread_create for worker i fails with EAGAIN (default: none) */
+static long nofile;             /* `nofile N`: RLIMIT_NOFILE (soft = hard = N) while dsh() runs (default: untouched) */
 static long nsteps_spurious;
 
 /* ------------------------------------------------------------------ utilities */
@@ -140,6 +147,14 @@ static uint64_t mix(uint64_t h, uint64_t v)
     return h * 1099511628211ULL;
 }
 long sched_now(void) { return vclock; }
+static int vmap(int fd);
+static struct script *script_of(int fd);
+/* is `fd` (as pdsh knows it) the open stderr descriptor of host h?  (rcmd_signal sends the signal over it) */
+int sched_is_efd_of(int fd, int h)
+{
+    struct script *sc = script_of(fd);
+    return vmap(fd) == VFD_BASE + 2 * h + 1 && sc && !sc->closed;
+}
 
 static void finish(const char *status, int code);
 static int finish_exit;         /* exit status of the harness process: 0, or 128+signo after a fault */
@@ -320,6 +335,10 @@ static long next_time(void)
             struct vhost *h = &vhosts[t->pend.a];
             if (h->conn_kind != CONN_HANG) c = h->conn_at;
             else if (ct > 0 && sleeper) c = vclock + 1;
+        } else if (t->pend.kind == OP_SLEEP && (t->kind == 1 || t->kind == 4)) {
+            /* a WORKER sleeps (waiting out a grace period; no worker of the tree as it is does): its wake-up is a real
+             * future event */
+            c = t->pend.b;
         } else if (t->pend.kind == OP_DESTROYEND) {
             struct vhost *h = &vhosts[t->pend.a];
             int stt = verif_t_state((int) t->pend.a);
@@ -364,9 +383,25 @@ static void take(const char *tok)
     taken[taken_len] = 0;
 }
 
+/* call sites of the protocol operations seen in this run */
+extern char __executable_start;
+static struct { const char *kind; void *ret; } sites[64];
+static int nsites;
+static void site_note(const char *kind, void *ret)
+{
+    int i;
+    for (i = 0; i < nsites; i++)
+        if (sites[i].ret == ret) return;
+    if (nsites < 64) { sites[nsites].kind = kind; sites[nsites].ret = ret; nsites++; }
+}
+
 static void finish(const char *status, int code)
 {
     int i;
+    fprintf(stdout, "K");
+    for (i = 0; i < nsites; i++)
+        fprintf(stdout, " %s:%lx", sites[i].kind, (unsigned long) ((char *) sites[i].ret - &__executable_start));
+    fprintf(stdout, "\n");
     fprintf(stdout, "C %s\n", taken ? taken : "");
     fprintf(stdout, "M status=%s code=%d fanout=%d n=%d peak=%d peak_step=%d early=%d steps=%ld spurious=%ld "
             "diverged=%d tc=%d clock=%ld connects=", status, code, fanout, nvhosts, peak, peak_step,
@@ -691,7 +726,7 @@ static int apply(struct vthread *t, int spurious, int inl)
             long when = vclock + (o->b == SIGKILL ? 0 : vhosts[o->a].termgrace);
             if (vhosts[o->a].death > when) vhosts[o->a].death = when;
         }
-        if (!q) { evhdr(t, inl); fprintf(stdout, "fwd %ld %ld\n", o->a, o->b); }
+        if (!q) { evhdr(t, inl); fprintf(stdout, "fwd %ld %ld%s\n", o->a, o->b, o->err ? " stale-efd" : ""); }
         o->ret = 0;
         return 1;
     case OP_RETURN:
@@ -939,6 +974,12 @@ int __wrap_pthread_create(pthread_t *thr, const pthread_attr_t *attr, void *(*fn
     int k = verif_fn_kind(fn);
     struct op o = { .kind = OP_CREATE, .cls = (k == 1 || k == 4) ? Y_FAN : Y_SIG, .obj = thr, .fn = fn, .arg = arg };
     (void) attr;
+    site_note("create", __builtin_return_address(0));
+    if ((k == 1 || k == 4) && createfail >= 0 && verif_t_index(arg) == createfail) {
+        fprintf(stdout, "I %s createfail W%d\n", self ? self->name : "?", createfail);
+        createfail = -1;        /* once */
+        return EAGAIN;
+    }
     return (int) sched_do(o)->ret;
 }
 int __wrap_pthread_mutex_lock(pthread_mutex_t *m)
@@ -961,16 +1002,19 @@ int __wrap_pthread_mutex_unlock(pthread_mutex_t *m)
 int __wrap_pthread_cond_wait(pthread_cond_t *c, pthread_mutex_t *m)
 {
     struct op o = { .kind = OP_WAIT, .cls = mutex_of(m)->cls, .obj = c, .obj2 = m };
+    site_note("wait", __builtin_return_address(0));
     return (int) sched_do(o)->ret;
 }
 int __wrap_pthread_cond_signal(pthread_cond_t *c)
 {
     struct op o = { .kind = OP_SIGNAL, .cls = c == verif_tc_cond() ? Y_FAN : Y_MISC, .obj = c };
+    site_note("signal", __builtin_return_address(0));
     return (int) sched_do(o)->ret;
 }
 int __wrap_pthread_cond_broadcast(pthread_cond_t *c)
 {
     struct op o = { .kind = OP_BCAST, .cls = c == verif_tc_cond() ? Y_FAN : Y_MISC, .obj = c };
+    site_note("broadcast", __builtin_return_address(0));
     return (int) sched_do(o)->ret;
 }
 int __wrap_pthread_kill(pthread_t p, int sig)
@@ -1170,6 +1214,8 @@ int main(int argc, char **argv)
         else if (!strcmp(k, "tstates")) show_ts = atoi(v);
         else if (!strcmp(k, "spinlimit")) spin_limit = atol(v);
         else if (!strcmp(k, "reltime")) reltime = atoi(v);
+        else if (!strcmp(k, "createfail")) createfail = atoi(v);
+        else if (!strcmp(k, "nofile")) nofile = atol(v);
         else if (!strcmp(k, "connerr")) stub_connerr = atoi(v);
         else if (!strcmp(k, "lowfds")) { int m = atoi(v), b; for (b = 0; b < 3; b++) low_owner[b] = (m >> b) & 1 ? -1 : -2; }
         else if (!strcmp(k, "seed")) { rng = 88172645463325252ULL ^ ((uint64_t) atoll(v) * 0x9e3779b97f4a7c15ULL); if (!rng) rng = 1; rnd(); rnd(); }
@@ -1257,6 +1303,11 @@ int main(int argc, char **argv)
     if (rcmd_register_default_rcmd("sched") < 0) { fprintf(stderr, "cannot register stub rcmd module\n"); return 3; }
 
     fprintf(stdout, "H fanout=%d n=%d yield=%d\n", opt.fanout, nvhosts, yield_mask);
+    if (nofile > 0) {           /* a tight descriptor limit: dsh() must not let it change what the fanout means */
+        struct rlimit rl = { (rlim_t) nofile, (rlim_t) nofile };
+        __real_fflush(stdout);
+        setrlimit(RLIMIT_NOFILE, &rl);
+    }
 
     rc = dsh(&opt);
 
